@@ -3,14 +3,19 @@
 (* Exhaustive exploration of the OneWay design for small constants:        *)
 (* 2 (thorough: 3) senders, 3..5 packs (some larger than the write buffer, *)
 (* two with a per-send license), frames of 2 units, at most MaxFaults      *)
-(* environment faults, at most MaxConn connections, queue capacity QCap.   *)
+(* environment faults, at most MaxConn connections, queue capacity QCap,   *)
+(* one collector address (MC_OneWay_multi: two, every subset of them       *)
+(* configured, each listener going down and coming back on its own); with  *)
+(* Stall the peer may also stall in the middle of a socket write (write    *)
+(* deadline expired, the peer is still there).                             *)
 (* Direct mode and queue mode are separate configurations.                 *)
 (***************************************************************************)
 EXTENDS OneWay, TLC
 
 CONSTANTS QueueMode, QCap, MaxConn, NPacks,
+          Stall,      \* BOOLEAN: the environment may stall a peer in the middle of a socket write
           Broken      \* "none", or a deliberately broken design TLC must refute:
-                      \* "nolock" | "keepwriter" | "wdial" | "stalelic" | "evict"
+                      \* "nolock" | "keepwriter" | "wdial" | "stalelic" | "evict" | "dialpart" | "resetwriter"
 
 AllPacks == { [id |-> 1, owner |-> "s1", pcode |-> 7, lic |-> NoLic, body |-> 1, big |-> FALSE],
               [id |-> 2, owner |-> "s1", pcode |-> 8, lic |-> "LB",  body |-> 2, big |-> TRUE],
@@ -25,7 +30,7 @@ Started == DOMAIN reg \cup errset \cup {cur[a].id : a \in Actor}
 IsNext(s, p) == p.owner = s /\ p.id \notin Started
                 /\ \A q \in MCPacks : (q.owner = s /\ q.id < p.id) => q.id \in Started
 
-Kinds == {"closed", "reset"}
+Kinds == {"closed", "reset"} \cup (IF Stall THEN {"stalled"} ELSE {})
 
 DoCall        == \E s \in Sender, p \in MCPacks : IsNext(s, p) /\ Call(s, p)
 DoEnqueue     == \E s \in Sender, p \in MCPacks : IsNext(s, p) /\ Enqueue(s, p)
@@ -38,7 +43,7 @@ LockNoMutex(s) ==
   /\ UNCHANGED <<conf, cur, fr, conn, nconn, wbuf, werr, net, wire, listener, queue, okset, errset, res, faults, streak>>
 \* broken design "keepwriter": a re-dial keeps the old buffered writer (its unsent tail leaks onto the new connection)
 ConnectKeepWriter(a) ==
-  /\ CanDial(a) /\ conn = 0 /\ listener = "open"
+  /\ CanDial(a) /\ conn = 0 /\ UpSrv # {}
   /\ nconn' = nconn + 1 /\ conn' = nconn + 1
   /\ net' = Append(net, "up") /\ wire' = Append(wire, <<>>)
   /\ werr' = FALSE /\ UNCHANGED wbuf
@@ -53,7 +58,7 @@ WorkerDialStart ==
   /\ pc' = [pc EXCEPT ![Worker] = "dialing"]
   /\ UNCHANGED <<conf, lock, cur, fr, conn, nconn, wbuf, werr, net, wire, listener, queue, reg, okset, errset, res, faults, streak>>
 WorkerDialEnd ==
-  /\ Broken = "wdial" /\ pc[Worker] = "dialing" /\ listener = "open"
+  /\ Broken = "wdial" /\ pc[Worker] = "dialing" /\ UpSrv # {}
   /\ nconn' = nconn + 1 /\ conn' = nconn + 1
   /\ net' = Append(net, "up") /\ wire' = Append(wire, <<>>)
   /\ wbuf' = <<>> /\ werr' = FALSE /\ streak' = 0
@@ -77,11 +82,34 @@ EnqueueEvict(s, p) ==
   /\ UNCHANGED <<conf, lock, pc, cur, fr, conn, nconn, wbuf, werr, net, wire, listener, errset, res, faults, streak>>
 DoEnqueueEvict == \E s \in Sender, p \in MCPacks : IsNext(s, p) /\ EnqueueEvict(s, p)
 
+\* broken design "dialpart": the dial loop does not cover the whole server list -- it gives up at a refusing server
+\* although another configured collector is listening ("could not connect to any server").  Such a dial is no
+\* reconnection attempt (ConnectFail: an attempt is an attempt at every configured server): it does not end the streak
+\* of failed sends, and the client never comes back although a configured collector is up
+ConnectFailPartial(a) ==
+  /\ Broken = "dialpart" /\ CanDial(a) /\ conn = 0 /\ \E ad \in conf.srv : listener[ad] = "refusing"
+  /\ pc' = [pc EXCEPT ![a] = IF @ = "built" THEN "senderr" ELSE @]
+  /\ streak' = IF UpSrv = {} THEN 0 ELSE streak
+  /\ UNCHANGED <<conf, lock, cur, fr, conn, nconn, wbuf, werr, net, wire, listener, queue, reg, okset, errset, res, faults>>
+DoConnectFailPartial == \E a \in Actor : ConnectFailPartial(a)
+
+\* broken design "resetwriter": a flush whose write deadline expired ("a busy collector is not a broken connection")
+\* resets the buffered writer onto the SAME connection: its sticky error is cleared, what it held is dropped, and the
+\* next frames go out directly behind the frame that was cut
+FlushResetWriter(a, d) ==
+  /\ Broken = "resetwriter" /\ pc[a] = "written" /\ conn # 0 /\ ~werr /\ wbuf # <<>>
+  /\ Push(conn, wbuf, d, FALSE, "stalled")
+  /\ pc' = [pc EXCEPT ![a] = "flusherr"] /\ res' = [res EXCEPT ![a] = "err"]
+  /\ wbuf' = <<>> /\ werr' = FALSE
+  /\ UNCHANGED <<conf, lock, cur, fr, conn, nconn, listener, queue, reg, okset, errset, streak>>
+DoFlushResetWriter == \E a \in Actor, d \in 0..Len(wbuf) : FlushResetWriter(a, d)
+
 \* configuration changes between sends: the default license toggles between LA and LD, the capacity of the queue
-\* between QCap and QCap - 1, the server list between the collector and somewhere else; by field or by ApplyConfig,
+\* between QCap and QCap - 1, the server list between the subsets of the collector addresses (none: the client points
+\* somewhere else); by field or by ApplyConfig,
 \* which (the code's design) drops the connection and dials again exactly if the license or the server list changed
 DoReconfig == conf.gen < MaxCfg /\
-              \E via \in {"field", "apply"}, lic \in {"LA", "LD"}, srv \in {Here, "away"}, dialok \in BOOLEAN :
+              \E via \in {"field", "apply"}, lic \in {"LA", "LD"}, srv \in SUBSET Addr, dialok \in BOOLEAN :
                 \E qcap \in (IF QueueMode THEN {QCap, QCap - 1} ELSE {QCap}) :
                    LET redial == via = "apply" /\ (lic # conf.deflic \/ srv # conf.srv) IN
                    /\ (lic # conf.deflic \/ qcap # conf.qcap \/ srv # conf.srv)
@@ -93,19 +121,21 @@ DoLock        == \E s \in Sender : IF Broken = "nolock" THEN LockNoMutex(s) ELSE
 DoUnlock      == \E s \in Sender : Unlock(s)
 DoReturn      == \E s \in Sender : Return(s)
 DoBuild       == \E a \in Actor : IF Broken = "stalelic" THEN BuildStale(a) ELSE Build(a)
-DoConnectOk   == \E a \in Actor : IF Broken = "keepwriter" THEN ConnectKeepWriter(a) ELSE ConnectOk(a)
+DoConnectOk   == \E a \in Actor : IF Broken = "keepwriter" THEN ConnectKeepWriter(a) ELSE \E ad \in Addr : ConnectOk(a, ad)
 DoConnectFail == \E a \in Actor : ConnectFail(a)
 DoBufWrite    == \E a \in Actor : BufWrite(a)
 DoSpill       == \E a \in Actor, u \in 1..Len(wbuf) : \E d \in 0..u, ok \in BOOLEAN, kind \in Kinds : Spill(a, u, d, ok, kind)
-DoFlush       == \E a \in Actor, d \in 0..Len(wbuf), ok \in BOOLEAN, kind \in Kinds : Flush(a, d, ok, kind)
+DoFlush       == \E a \in Actor, d \in 0..Len(wbuf), ok \in BOOLEAN, kind \in Kinds :
+                    /\ (Broken = "resetwriter" => kind # "stalled")       \* that design answers a stalled flush differently
+                    /\ Flush(a, d, ok, kind)
 DoCloseOnSendError  == \E a \in Actor : CloseOnSendError(a)
 DoCloseOnFlushError == \E a \in Actor : CloseOnFlushError(a)
 \* D1: direct senders, and the SendAndClear style of draining, do not close after a failed flush
 DoSkipCloseOnFlushError == \E a \in Actor : SkipCloseOnFlushError(a)
 DoIdleFlush   == \E d \in 0..Len(wbuf), ok \in BOOLEAN, kind \in Kinds : IdleFlush(d, ok, kind)
 
-SendSteps == \/ DoBuild \/ DoConnectOk \/ DoConnectFail \/ DoBufWrite \/ DoSpill \/ DoFlush
-             \/ DoCloseOnSendError \/ DoCloseOnFlushError \/ DoSkipCloseOnFlushError
+SendSteps == \/ DoBuild \/ DoConnectOk \/ DoConnectFail \/ DoConnectFailPartial \/ DoBufWrite \/ DoSpill \/ DoFlush
+             \/ DoFlushResetWriter \/ DoCloseOnSendError \/ DoCloseOnFlushError \/ DoSkipCloseOnFlushError
 
 (* One flat disjunction so that -coverage counts every action separately.   *)
 (* The actions of the other mode are disabled by their own guards (Call:    *)
@@ -117,9 +147,11 @@ ClientNext  == DirectSteps \/ QueueSteps \/ SendSteps
 
 DoPeerClose == \E c \in Conns : PeerClose(c)
 DoPeerReset == \E c \in Conns : PeerReset(c)
-EnvNext == DoPeerClose \/ DoPeerReset \/ ListenerDown \/ ListenerUp \/ DoReconfig
+DoListenerDown == \E ad \in Addr : ListenerDown(ad)
+DoListenerUp   == \E ad \in Addr : ListenerUp(ad)
+EnvNext == DoPeerClose \/ DoPeerReset \/ DoListenerDown \/ DoListenerUp \/ DoReconfig
 
-MCInit == InitWith([queue |-> QueueMode, qcap |-> QCap, deflic |-> "LA", srv |-> Here, gen |-> 0])
+MCInit == InitWith([queue |-> QueueMode, qcap |-> QCap, deflic |-> "LA", srv |-> Addr, gen |-> 0])
 MCNext == ClientNext \/ EnvNext
 MCSpec == MCInit /\ [][MCNext]_vars
 LiveSpec == MCInit /\ [][MCNext]_vars /\ WF_vars(ClientNext)
